@@ -540,6 +540,11 @@ impl SimListener {
 
 impl SimConnector {
     pub async fn connect_sim(&self) -> io::Result<SimStream> {
+        self.connect_sim_ctl().await.map(|(s, _)| s)
+    }
+
+    /// Connect and also return the link's fault-injection handle.
+    pub async fn connect_sim_ctl(&self) -> io::Result<(SimStream, LinkCtl)> {
         let index = {
             let mut g = self.listener.inner.lock().unwrap();
             g.attempts += 1;
@@ -561,6 +566,7 @@ impl SimConnector {
             plan.client_cfg,
             plan.server_cfg,
         );
+        let ctl2 = ctl.clone();
         let w = {
             let mut g = self.listener.inner.lock().unwrap();
             g.queue.push_back(Accepted {
@@ -574,7 +580,7 @@ impl SimConnector {
         if let Some(w) = w {
             w.wake()
         }
-        Ok(c)
+        Ok((c, ctl2))
     }
 }
 
@@ -943,5 +949,23 @@ impl domain::net::client::protocol::AsyncConnect for SimDgConnector {
             Ok(ClientDgSock(s))
         };
         Box::pin(std::future::ready(res))
+    }
+}
+
+impl domain::net::server::sock::AsyncAccept for SimListener {
+    type Error = io::Error;
+    type StreamType = SimStream;
+    type Future = std::future::Ready<Result<SimStream, io::Error>>;
+
+    fn poll_accept(&self, cx: &mut Context<'_>) -> Poll<io::Result<(Self::Future, SocketAddr)>> {
+        match self.poll_accept_sim(cx) {
+            Poll::Pending => Poll::Pending,
+            Poll::Ready(Some(a)) => {
+                ev!("net {} accepted connection #{} from {}", self.name, a.index, a.peer);
+                Poll::Ready(Ok((std::future::ready(Ok(a.stream)), a.peer)))
+            }
+            // A closed listener never yields again.
+            Poll::Ready(None) => Poll::Pending,
+        }
     }
 }
